@@ -347,6 +347,14 @@ func run(t *rapid.T, rec *ev.Recorder, k kase) (labels []string, nontrivial bool
 	checkSources("during Evacuate")
 	if evErr != nil {
 		lab["evacuate-error"] = true
+		switch {
+		case strings.Contains(evErr.Error(), "could not put object to any shard"):
+			lab["evacuate-error:no-target-accepted"] = true
+		case engx.Class(evErr) == engx.Removed:
+			lab["evacuate-error:listed-object-removed-through-parent"] = true
+		default:
+			lab["evacuate-error:other:"+engx.Class(evErr)] = true
+		}
 		return
 	}
 	lab["evacuate-ok"] = true
